@@ -7,6 +7,7 @@
 package main
 
 import (
+	"regexp"
 	"flag"
 	"fmt"
 	"os"
@@ -88,6 +89,40 @@ func run(c *props.Checker, tier, repo, verif string) (code int) {
 	npk, nfn := 0, 0
 	for _, cf := range configs {
 		prog, err := core.Load(repo, overlay, cf[0], cf[1])
+		if err != nil && strings.Contains(err.Error(), "does not type-check") {
+			// A canary is a self-test of the checker written against today's names in the package it
+			// is overlaid on. When only canary overlays fail to compile (the tree renamed or reshaped
+			// something they mention), the tree itself is fine: those canaries are left out, said so,
+			// and the rules run on the tree without their self-test for this run.
+			onlyCanaries := true
+			bad := map[string]bool{}
+			for _, part := range strings.Split(strings.TrimPrefix(err.Error(), "tree does not type-check: "), "; ") {
+				m := canaryFileRe.FindString(part)
+				if m == "" {
+					onlyCanaries = false
+					break
+				}
+				bad[m] = true
+			}
+			if onlyCanaries && len(bad) > 0 {
+				var kept []core.Canary
+				for i, cn := range canaries {
+					kind := "canary"
+					if cn.Spec {
+						kind = "spec"
+					}
+					base := fmt.Sprintf("zz_verif_%s_%s_%d_%s.go", kind, c.ID, i, cn.Name)
+					if bad[base] && !cn.Spec {
+						delete(overlay, filepath.Join(repo, cn.RelDir, base))
+						fmt.Printf("CANARY-SKIPPED property=%s %s: the overlay does not compile against this tree (%s); its rules run without their self-test\n", c.ID, base, firstLine(err.Error()))
+						cn.Expect = nil
+					}
+					kept = append(kept, cn)
+				}
+				canaries = kept
+				prog, err = core.Load(repo, overlay, cf[0], cf[1])
+			}
+		}
 		if err != nil {
 			fmt.Printf("CHECKER-ERROR property=%s config=%s/%s: %v\n", c.ID, cf[0], cf[1], err)
 			return 2
@@ -104,4 +139,16 @@ func run(c *props.Checker, tier, repo, verif string) (code int) {
 		"functions_in_scope": nfn,
 	}
 	return rep.Finish(verif, canaries, started, extra)
+}
+
+var canaryFileRe = regexp.MustCompile(`zz_verif_canary_[A-Za-z0-9_]+\.go`)
+
+func firstLine(s string) string {
+	if i := strings.Index(s, ";"); i > 0 {
+		s = s[:i]
+	}
+	if len(s) > 200 {
+		s = s[:200]
+	}
+	return s
 }
